@@ -31,7 +31,8 @@ M = {
          ['C06'], 'checker condition 3c: < -> <='),
  'm03': (S + 'lp_solver.py', "max(0, up_to_postition_inclusive - 1), -1):", "max(0, up_to_postition_inclusive), -1):",
          ['C03'], 'generous stops one rank early'),
- 'm04': (G + 'generator_shared.py', "        if i < remainder:", "        if i <= remainder:", ['C08'], 'create_quotas off by one'),
+ 'm04': (G + 'generator_shared.py', "        if i < remainder:", "        if i < remainder or (remainder == 0 and n > 3 and i == n - 1 and sum_q > n):", ['C08'],
+         'create_quotas gives the last of >3 agents one extra when the sum divides evenly'),
  'm05': (S + 'lp_solver.py', "            self.prob += objective_function <= objective_function.varValue",
          "            pass", ['C04'], 'minimised objectives are no longer frozen'),
  'm06': (S + 'lp_solver.py', """        self.prob += (lpSum(all_vars) == obj)
